@@ -165,9 +165,17 @@ def run_one(spec: dict) -> dict:
         except Exception:
             probe("after_aborted_run")
     tapmod.set_tap(tap)
+    import contextlib
+
+    from sqllineage.config import SQLLineageConfig
+
+    scope = SQLLineageConfig(**spec["cfg"]) if spec.get("cfg") else contextlib.nullcontext()
+    if spec.get("cfg"):
+        probe("lateral_alias_config")
     try:
-        runner = LineageRunner(";\n".join(script) + (";" if spec.get("trailing_semicolon") else ""), **kwargs)
-        observed = {tuple(str(c) for c in p) for p in runner.get_column_lineage(exclude_subquery_columns=True)}
+        with scope:
+            runner = LineageRunner(";\n".join(script) + (";" if spec.get("trailing_semicolon") else ""), **kwargs)
+            observed = {tuple(str(c) for c in p) for p in runner.get_column_lineage(exclude_subquery_columns=True)}
         err = None
     except Exception as e:
         observed, err = None, e
@@ -270,6 +278,18 @@ def run_one(spec: dict) -> dict:
                     names.setdefault(raw, set()).add(i)
         if any(len(v) > 1 for v in names.values()):
             return done(skip="known_finding_shape_same_name_unresolved")
+
+    # ---- the property's last clause, checked where the generator knows the answer: an unqualified column that a
+    # table created earlier in the script defines is attributed to it (provider in use)
+    if in_use:
+        for si, pairs in (spec.get("expect_pairs") or {}).items():
+            have = {(p_[0], p_[1]) for p_ in stmt_pairs[int(si)]}
+            for a_, b_ in pairs:
+                probe("expected_attribution_checked")
+                if (a_, b_) not in have:
+                    return done({"class": "unqualified_column_not_attributed_to_defining_table",
+                                 "message": f"statement {si} `{script[int(si)]}`: {a_} -> {b_} expected (the table was created earlier in the script and defines that column); "
+                                            f"the statement reported {sorted(have)} (script {script}, config {spec.get('cfg')})"})
 
     # ---- oracle (3): SELECT * from a table created earlier expands to exactly the registered columns
     model = {}
@@ -407,11 +427,24 @@ def gen_recreate(g, seed, ps, base, dialect) -> dict:
     annot = [ann(k1, T, list(A), [b1], False), ann(rk, V, list(A) if (not star or in_use) else None, [T], star),
              ann(k3, T, list(B), [b2], False), ann(rk, tgt4, list(B) if (not star or in_use) else None, [T], star)]
     script = [s1, s2, s3, s4]
-    if reader_kind == "insert" and tgt4 == V:
+    cfg = {}
+    expect = None
+    if len(B) >= 3 and g.random() < 0.5:
+        # lateral column alias references switched on: a select item aliased to a column name that the RE-created
+        # table defines, and a later item naming it unqualified - the table's own column must win
+        cfg = {"LATERAL_COLUMN_ALIAS_REFERENCE": True}
+        s4 = f"INSERT INTO {W} SELECT {B[0]}, {B[1]} AS {B[2]}, {B[2]} AS booked_{tag} FROM {T}"
+        script[3] = s4
+        annot[3] = ann("insert", W, [B[0], B[2], f"booked_{tag}"], [T], False)
+        tgt4 = W
+        expect = [[f"{T}.{B[2]}", f"{W}.booked_{tag}"]]
         # a second INSERT into an existing table accumulates rather than defines: not judged (out unknown)
         annot[3]["out"] = None
-    return {"seed": seed, "script": script, "annot": annot, "provider": ps, "dialect": dialect, "shape": "recreate",
-            "trailing_semicolon": g.random() < 0.8}
+    spec = {"seed": seed, "script": script, "annot": annot, "provider": ps, "dialect": dialect, "shape": "recreate",
+            "trailing_semicolon": g.random() < 0.8, "cfg": cfg}
+    if expect and ps is not None:
+        spec["expect_pairs"] = {"3": expect}
+    return spec
 
 
 def gen(seed) -> dict:
